@@ -84,6 +84,11 @@ def check_catalog(ctx, d, structures, shape, metadata, fields, ppv, verbose, inf
                     fails.append('row %d field %s = %r, statistic of that structure %r' % (s.idx, f, g, w))
             elif not (close(g, w, 1e-8) or (g != g and w != w)):
                 fails.append('row %d field %s = %r, statistic of that structure %r' % (s.idx, f, g, w))
+            if f == 'flux' and metadata.get('data_unit') == u.Jy:
+                # independently of the statistic classes: the flux of Jy pixels is their sum, in double precision
+                tot = float(np.sum(np.asarray(s.values(subtree=True), dtype=np.float64)))
+                if not close(g, tot, 1e-9):
+                    fails.append('row %d flux = %r Jy, the pixels sum to %r Jy' % (s.idx, g, tot))
     with warnings.catch_warnings():
         warnings.simplefilter('ignore')
         want0 = expected_row(first, shape, metadata, cls, flds, [])
@@ -114,12 +119,19 @@ def explore(ctx):
         per_ = [rng.random() < 0.5 for _ in shape] if rng.random() < 0.5 else [False] * len(shape)
         c = {'shape': shape, 'vals': vals, 'scale': 0, 'dtype': 'float64', 'adj': ['grid', per_],
              'minv': rng.choice([0, npx // 4]), 'delta': 0, 'npix': [rng.choice([0, 2]), 1], 'crit': []}
+        if rng.random() < 0.25:
+            # single / half precision pixels that are not short binary fractions (sevenths)
+            c['dtype'], c['den'] = rng.choice(['float32', 'float32', 'float16']), 7
+            c['minv'] = c['minv'] * 7
         try:
             d = impl.run_compute(c)
             kind = 'computed'
             if rng.random() < 0.4:
-                d.prune(**dc.prune_kwargs(c, {'delta': rng.randint(1, 4), 'npix': [rng.randint(0, 3), 1]}))
+                d.prune(**dc.prune_kwargs(c, {'delta': rng.randint(1, 4) * (c.get('den') or 1), 'npix': [rng.randint(0, 3), 1]}))
                 kind = 'pruned'
+            if rng.random() < 0.3:
+                d = dc.save_load(d, 'hdf5' if c['dtype'] == 'float16' else rng.choice(['hdf5', 'fits']))   # FITS has no half floats
+                kind += '+loaded'
         except Exception as e:
             ctx.oracle_failure(c, ['building the dendrogram raised %r' % (e,)])
             continue
